@@ -8,6 +8,26 @@ package main
 //@ func logf
 //@   errdrop fmt.Fprint: diagnostics to stderr; nothing sensible to do when stderr fails
 
+// ---- failing loudly (C18) ----------------------------------------------------------
+// Every error ends in abort: the diagnostic is written to stderr and the process
+// exits with a non-zero status, on every path; abortWithErr aborts exactly when
+// there is an error; main hands cobra's error to it.
+//@ func logf@loud
+//@   props C18
+//@   always-calls Fprintf
+//@ func abort
+//@   props C18
+//@   always-calls logf
+//@   always-calls os.Exit
+//@   arg-from os.Exit 0 const:nonzero
+//@ func abortWithErr
+//@   props C18
+//@   guarded abort when-nonnil err
+//@ func main@loud
+//@   props C18
+//@   always-calls abortWithErr
+//@   arg-from abortWithErr 0 call:Execute:0
+
 // "K=V..." flags: split at the FIRST '=', the value keeps any further '='.
 // Bounded in the number of flag values (0..2); each value is an unknown string.
 //@ func stringSliceToStringMap
